@@ -47,6 +47,7 @@ type gen struct {
 	ret       Ty
 	cnt       map[string]int // construction-time counters (avoided-by-construction etc.)
 	palette   []Ty
+	helpers   []Helper // helpers generated so far: callable from what is generated next
 }
 
 func (g *gen) intn(n int, label string) int { return rapid.IntRange(0, n-1).Draw(g.t, label) }
@@ -194,9 +195,37 @@ func (g *gen) leaf(t Ty) *Expr {
 
 var arithOps = []string{"+", "-", "*", "+", "-", "*", "/", "%", "^"}
 
+// callExpr calls one of the helpers generated so far; the result is cast when its type is not t.
+func (g *gen) callExpr(t Ty, d int) *Expr {
+	f := g.intn(len(g.helpers), "call-f")
+	for i := range g.helpers { // prefer a helper that returns t
+		if j := (f + i) % len(g.helpers); g.helpers[j].Ret == t {
+			f = j
+			break
+		}
+	}
+	h := &g.helpers[f]
+	n := len(h.Params)
+	for n > 0 && h.Params[n-1].Def != nil && g.chance(50, "call-omit-default") {
+		n--
+	}
+	e := &Expr{K: KCall, T: h.Ret, F: f}
+	for i := 0; i < n; i++ {
+		e.Args = append(e.Args, g.expr(h.Params[i].T, d-1))
+	}
+	g.cnt["constructed:function-call"]++
+	if h.Ret != t {
+		return cast(t, e)
+	}
+	return e
+}
+
 func (g *gen) expr(t Ty, d int) *Expr {
 	if d <= 0 {
 		return g.leaf(t)
+	}
+	if len(g.helpers) > 0 && g.intn(100, "call") >= 82 {
+		return g.callExpr(t, d)
 	}
 	k := g.intn(100, "ek")
 	switch {
@@ -378,6 +407,9 @@ func refs(e *Expr, out map[string]bool) {
 	}
 	refs(e.A, out)
 	refs(e.B, out)
+	for _, a := range e.Args {
+		refs(a, out)
+	}
 }
 
 func (g *gen) freeze(names map[string]bool, delta int) {
@@ -821,6 +853,42 @@ func genScriptN(t *rapid.T, maxStmts int, forceParams int) Script {
 	for i, n := 0, 1+g.intn(3, "palette-n"); i < n; i++ {
 		g.palette = append(g.palette, Ty(g.intn(int(nTy), "palette-ty")))
 	}
+	// helper functions (a third of the programs): generated first, each may call the earlier ones
+	if forceParams < 0 && g.intn(3, "helpers") == 0 {
+		for i, n := 0, 1+g.intn(2, "nhelpers"); i < n; i++ {
+			h := Helper{Name: "h" + itoa(i), Ret: g.ty("helper-ret")}
+			g.vars, g.ret, g.budget, g.loopDepth = nil, h.Ret, 3, 0
+			np := 1 + g.intn(3, "helper-nparams")
+			defaults := g.chance(40, "helper-defaults")
+			for j := 0; j < np; j++ {
+				pa := Param{N: g.fresh("p"), T: g.ty("helper-param-ty")}
+				if defaults && j == np-1 || defaults && j == np-2 && g.chance(50, "helper-default-2") {
+					if pa.T.isFloat() {
+						pa.Def = &Expr{K: KLit, T: pa.T, V: valBits(pa.T, float64(g.intn(9, "helper-def-f"))+0.5)}
+					} else {
+						pa.Def = litInt(pa.T, int64(g.intn(100, "helper-def-i")))
+					}
+				}
+				h.Params = append(h.Params, pa)
+				g.vars = append(g.vars, vinfo{n: pa.N, t: pa.T})
+			}
+			// defaults must be trailing
+			seenDef := false
+			for j := range h.Params {
+				if h.Params[j].Def != nil {
+					seenDef = true
+				} else if seenDef {
+					h.Params[j-1].Def = nil
+				}
+			}
+			h.Body = append(h.Body, g.stmtList(0, 3, "helper-body")...)
+			h.Body = append(h.Body, Stmt{K: SReturn, E: g.expr(h.Ret, g.depth("helper-ret-d"))})
+			g.helpers = append(g.helpers, h)
+		}
+		sc.Helpers = g.helpers
+		g.vars, g.loopDepth = nil, 0
+		g.cnt["constructed:helper-functions"]++
+	}
 	np := []int{1, 2, 2, 3, 1, 2, 0, 3}[g.intn(8, "nparams")]
 	if forceParams >= 0 {
 		np = forceParams
@@ -948,6 +1016,13 @@ func genScriptN(t *rapid.T, maxStmts int, forceParams int) Script {
 	g.t = outer
 	genCounters = g.cnt
 	return sc
+}
+
+func valBits(t Ty, f float64) uint64 {
+	if t == F32 {
+		return uint64(math.Float32bits(float32(f)))
+	}
+	return math.Float64bits(f)
 }
 
 // genCounters carries the construction counters of the most recent genScript call to the
